@@ -9,7 +9,7 @@ import xml.parsers.expat
 
 from hypothesis import strategies as st
 
-from vlib.runner import Violation, REPO
+from vlib.runner import Violation, crash_clause, REPO
 
 ID = 'C20'
 LEVEL = 'exploration'
@@ -311,6 +311,11 @@ def check_case(case, ctx):
             _emit(w, case['root'])
         except Boom:
             raise Violation('exception-escaped-model', 'Boom escaped the root element')
+        except Violation:
+            raise
+        except Exception as e:
+            # every call sequence of a case is a legal use of the writer: an exception out of it is the writer's
+            raise Violation(crash_clause(e), '%r while emitting the case' % (e,))
         if w._tag_stack if hasattr(w, '_tag_stack') else False:
             raise Violation('stack-unbalanced', 'elements left open after all pops: %r' % (w._tag_stack,))
         text = w.get_xml()
